@@ -23,7 +23,7 @@ struct MReq { bool live = false; int kind = K_IPUT; int var = 0; Access acc; lon
 struct MRank { std::vector<std::pair<long long, int>> abuf_table; /* (bytes, reqslot or -1 when released) in allocation order */ long long numrecs = 0; std::vector<MReq> reqs; bool abuf = false; long long abuf_size = 0, abuf_used = 0; bool numrecs_dirty = false; bool bb_pending = false; /* burst buffer: the rank's log may hold unflushed entries */ };
 enum FMode { FM_DEFINE, FM_COLL, FM_INDEP };
 struct MFile {
-    bool open = false; std::string path; int format = 1; int mode = FM_DEFINE; bool readonly = false; bool fresh = true; // fresh: created and never enddef'ed
+    bool open = false; std::string path; int format = 1; int mode = FM_DEFINE; bool readonly = false; bool fresh = true; bool poisoned = false; // fresh: created and never enddef'ed; poisoned: the definition holds over-sized variables (C14 probe 20), enddef fails with NC_EVARSIZE until the file is aborted
     bool in_redef = false;
     bool first_layout = false; long long ed[4] = {0, 0, 0, 0};   // the current layout was computed by the first enddef of a file created in this session, with these __enddef arguments (alignment oracle)
     std::vector<MDim> dims; std::vector<MVar> vars; std::vector<MAtt> gatts;
